@@ -564,6 +564,10 @@ func init() {
 		if p != nil && !bytes.Equal(p.JSON(), a[1]) {
 			return a, B("precondition-violated: the event was rewritten (" + c17Verdict(err) + ")")
 		}
+		if ve, ok := err.(gmsl.EventValidationError); ok && ve.Persistable && p == nil {
+			// "too large but persistable" is reported so that the caller can keep the event
+			return a, B("toolarge-persistable-without-event")
+		}
 		return a, B(c17Verdict(err))
 	})
 	// [version; type; has_sk; sk; sender; room; total length wanted ("" = as is) -> actual length]
@@ -589,6 +593,9 @@ func init() {
 		final[6] = B("0")
 		if p != nil {
 			final[6] = B(strconv.Itoa(len(p.JSON())))
+		}
+		if ve, ok := err.(gmsl.EventValidationError); ok && ve.Persistable && p == nil {
+			return final, B("toolarge-persistable-without-event")
 		}
 		return final, B(c17Verdict(err))
 	})
